@@ -26,6 +26,14 @@ theorem keepParsed_rawOf (items : List (Item L)) : keepParsed (items.map rawOf) 
     obtain ⟨op, occ, a⟩ := x
     simp [rawOf, keepParsed, ih]
 
+theorem lenientFold_map_rawOf (items : List (Item L)) (he : earlyOperand items = false) :
+    lenientFold (items.map rawOf) = (assemble (groups items), []) := by
+  unfold lenientFold
+  rw [keepParsed_rawOf]
+  cases items with
+  | nil => rfl
+  | cons x xs => simp [he]
+
 theorem lenientFold_strict_input (left : Option Occur × Ast L) (others : List (Item L)) :
     lenientFold ((none, left.1, some left.2) :: others.map rawOf)
       = (assemble (groups ((none, left.1, left.2) :: others)), []) := by
